@@ -5,7 +5,6 @@ import (
 	"go/token"
 	"go/types"
 	"regexp"
-	"sort"
 	"strconv"
 	"strings"
 
@@ -378,33 +377,33 @@ func ruleControlLayout(p *Prog, r *Report) {
 				r.ok(rule, key, pos, "header = ["+strings.Join(got[:], ", ")+"]")
 			}
 		}
-		// a response refuses a request of the wrong kind
+		// a response refuses a request of the wrong kind (kind = function of PType and SType)
 		if c.req != "" {
-			names := []string{"data message", "undefined"}
-			for _, n := range e37STypes {
-				names = append(names, n)
+			cm := p.Pkgs["ast"].Types.Scope().Lookup("ControlMessage")
+			key := fmt.Sprintf("%s:ast.%s:request-kind", rule, c.name)
+			if cm == nil {
+				r.unk(rule, key, pos, "type ControlMessage not found")
+			} else {
+				want := int64(-1)
+				for st, n := range e37STypes {
+					if n == c.req {
+						want = int64(st)
+					}
+				}
+				var allST []Val
+				for i := int64(0); i < 256; i++ {
+					allST = append(allST, int64Val(i))
+				}
+				reqPtr := Val{K: KPtr, S: "req"}
+				CheckDomain(p, r, DomainSpec{Rule: rule, Key: key, Fn: fn,
+					Args: map[int]Val{0: {K: KIface, T: types.NewPointer(cm.Type()), Inner: &reqPtr}},
+					Env:  map[string]Val{"req.header": {K: KSlice, S: "req.header", Len: 10}},
+					Subjs: []Subj{
+						{Name: "PType of the request", Kind: SPath, Path: "req.header[4]", Type: types.Typ[types.Uint8], NoReps: true, Extra: []Val{int64Val(0), int64Val(1), int64Val(2), int64Val(255)}},
+						{Name: "SType of the request", Kind: SPath, Path: "req.header[5]", Type: types.Typ[types.Uint8], NoReps: true, Extra: allST}},
+					What:   fmt.Sprintf("the request is a %s (PType 0, SType %d)", c.req, want),
+					Accept: func(v []Val) bool { return v[0].I.Sign() == 0 && v[1].I.Int64() == want }})
 			}
-			sort.Strings(names)
-			var extra []Val
-			for _, n := range names {
-				extra = append(extra, strVal(n))
-			}
-			creq := c.req
-			CheckDomain(p, r, DomainSpec{Rule: rule, Key: fmt.Sprintf("%s:ast.%s:request-kind", rule, c.name), Fn: fn,
-				Subjs: []Subj{{Name: "Type() of the request", Kind: SValue, Type: types.Typ[types.String], NoReps: true, Extra: extra,
-					Pick: func(f *ssa.Function) []ssa.Value {
-						var out []ssa.Value
-						for _, b := range f.Blocks {
-							for _, instr := range b.Instrs {
-								if v, ok := instr.(ssa.Value); ok && isInvokeOf(v, "Type") {
-									out = append(out, v)
-								}
-							}
-						}
-						return out
-					}}},
-				What:   "the request is a " + creq,
-				Accept: func(v []Val) bool { return v[0].S == creq }})
 		}
 	}
 	// encoder: 0,0,0,10 then the header
